@@ -539,3 +539,10 @@ def all_candidates(db, ctx):
     if not found:
         raise AnchorMissing("build_lattice: Lattice::insert inside the lexicon look-up loop")
     ctx.floor(2)
+
+
+@rule("C02.no-stale-lattice", "costs and back-pointers are computed from the rows of the CURRENT sentence only: every growable field of the lattice (rows, "
+                              "memo tables) is emptied on the reset path (re-evaluation of C10.kill-grow)")
+def no_stale_lattice(db, ctx):
+    from . import C10
+    C10.kill_grow(db, ctx)
